@@ -476,16 +476,51 @@ def render_system(desc, rd):
     net = render_network(desc, rd, sysu)
     space = render_space(desc, rd, sysu)
     kw = {}
+    labels = [s_["label"] for s_ in desc["species"]]
+    ncell = ncells(desc["space"])
     if desc["state"] is not None:
-        form = "bare" if rd.molecule_state else rd.r.choice(["bare", "ua"])
+        form = "bare" if rd.molecule_state else rd.r.choice(["bare", "ua", "ua", "dict"])
         if form == "bare":
             kw["state"] = rd.seq([q_bare(x, sysu, Q_DIM) for x in desc["state"]])
-        else:
+        elif form == "ua":
             own = rd.sys_draw(rd.r) if rd.same is None else rd.same
             kw["state"] = rd.keep(UnitArray([q_bare(x, own, Q_DIM) for x in desc["state"]], own[2]))
+        else:
+            # documented dictionary form: one UnitArray per species label (each in units of its own)
+            d = {}
+            for k, l in enumerate(labels):
+                own = rd.sys_draw(rd.r) if rd.same is None else rd.same
+                d[l] = UnitArray([q_bare(x, own, Q_DIM) for x in desc["state"][k * ncell:(k + 1) * ncell]], own[2])
+            items = list(d.items())
+            rd.r.shuffle(items)
+            kw["state"] = dict(items)
+    elif not rd.molecule_state and rd.r.random() < 0.15:
+        # dictionary overriding some species only, with the very values the default would give
+        dflt = default_state(desc)
+        d = {}
+        for k, l in enumerate(labels):
+            if rd.r.random() < 0.5:
+                own = rd.sys_draw(rd.r) if rd.same is None else rd.same
+                d[l] = UnitArray([q_bare(x, own, Q_DIM) for x in dflt[k * ncell:(k + 1) * ncell]], own[2])
+        kw["state"] = d
     if desc["chemostats"] is not None:
-        import numpy as _np
-        kw["chemostats"] = rd.seq(list(desc["chemostats"]), integer=True)
+        if rd.r.random() < 0.25:
+            # documented dictionary form: arrays per species label; species left out keep their species-level default
+            dflt = default_chemostats(desc)
+            d = {}
+            for k, l in enumerate(labels):
+                sl = list(desc["chemostats"][k * ncell:(k + 1) * ncell])
+                if sl != list(dflt[k * ncell:(k + 1) * ncell]) or rd.r.random() < 0.5:
+                    d[l] = rd.seq(sl, integer=True)
+            items = list(d.items())
+            rd.r.shuffle(items)
+            kw["chemostats"] = dict(items)
+        else:
+            kw["chemostats"] = rd.seq(list(desc["chemostats"]), integer=True)
+    elif rd.r.random() < 0.1:
+        dflt = default_chemostats(desc)
+        kw["chemostats"] = {l: rd.seq(list(dflt[k * ncell:(k + 1) * ncell]), integer=True)
+                            for k, l in enumerate(labels) if rd.r.random() < 0.5}
     system = RDSystem(network=net, space=space, units_system=UnitsSystem(**si.sys_dict(sysu)), **kw)
     rd.scribble()
     return system
